@@ -68,14 +68,14 @@ func TestVerifCalcParams(t *testing.T) {
 		}
 		// the same through COM_STMT_PREPARE (unless the trailing ';' trimming changes the text)
 		if !strings.HasSuffix(c.S, ";") && len(c.S) > 0 {
-			r := se.ExecuteCommand(mysql.ComStmtPrepare, []byte(c.S))
+			r := fix.send(se, mysql.ComStmtPrepare, []byte(c.S))
 			if r.RespType == RespPrepare {
 				s := r.Data.(*Stmt)
 				if s.paramCount != count || fmt.Sprint(s.offsets) != fmt.Sprint(offsets) {
 					res.Dev("C14 prepare reports other parameters than CalcParams", "text %q: CalcParams %d %v, prepared statement %d %v", c.S, count, offsets, s.paramCount, s.offsets)
 				}
 				idb := []byte{byte(s.id), byte(s.id >> 8), byte(s.id >> 16), byte(s.id >> 24)}
-				se.ExecuteCommand(mysql.ComStmtClose, idb)
+				fix.send(se, mysql.ComStmtClose, idb)
 				stats["through_prepare"]++
 			} else {
 				res.Dev("C14 prepare refuses what CalcParams accepts", "text %q", c.S)
@@ -177,7 +177,7 @@ func TestVerifMultiStmts(t *testing.T) {
 		}
 		fix.be.take()
 		fix.be.failOn = c.Fail
-		r := se.ExecuteCommand(mysql.ComQuery, []byte(c.S))
+		r := fix.send(se, mysql.ComQuery, []byte(c.S))
 		fix.be.failOn = ""
 		got := fix.be.take()
 		for i := range got {
